@@ -8,12 +8,14 @@ Descriptions (plain python data, JSON-able):
                   | ["out", j, i]                                          output i of pattern node j
                   | ["or", k]                                              the k-th OR value of the pattern
   attr pattern    ["c", value] | ["v", name] | ["ov", name] | ["av", name|None, none_ok]
-  node pattern    {"op": str, "dom": None|str, "prefix": bool, "attrs": [[name, attrpat]...], "other_attrs": None|bool,
+  node pattern    {"op": str, "dom": None|str, "prefix": bool, "dom_prefix": None|str (domain = PrefixPattern, built by another opset builder), "attrs": [[name, attrpat]...], "other_attrs": None|bool,
                    "other_ins": None|bool, "ins": [value pattern...], "outs": int | [name|None ...]}
   pattern         {"params": [names], "nodes": [...], "ors": [{"alts": [vp...], "name": .., "tagv": .., "tags": None|[..]}],
                    "outs": [vp...]}                   (an OR value is created at its first use and shared afterwards)
   host            {"nodes": [{"op","dom","attrs":[[name,value]],"ins":[vid|None],"outs":[vid]}], "inputs":[vid], "outs":[vid],
-                   "consts": {vid: number | [numbers] | "other"}}
+                   "consts": {vid: number | [numbers] | "other" | {"shape": [dims], "data": [numbers, row-major]}}}
+                  (number = 0-d tensor, list = rank-1 tensor, dict = a tensor of any shape -- also a second way of
+                  writing ranks 0 and 1 --, "other" = a 2x2 tensor the model does not read)
 """
 from __future__ import annotations
 
@@ -38,6 +40,7 @@ def build_pattern_fn(desc):
     params = list(desc["params"])
 
     def fn(op, *args):
+        fn.created = []              # the NodePattern objects in the order of the description (= creation order)
         env = dict(zip(params, args))
         outs_of = {}
         ors = {}
@@ -103,9 +106,17 @@ def build_pattern_fn(desc):
                 kw["_outputs"] = outs
             for name, a in nd.get("attrs", []):
                 kw[name] = ap(a)
-            builder = op.submodule(nd["op"]) if nd.get("prefix") else getattr(op, nd["op"])
+            base = op
+            if nd.get("dom_prefix") is not None:
+                # a node built by another opset builder whose domain is a prefix pattern: pattern.torch_module_op
+                # (domain "pkg.torch*") or OpsetPatternBuilder(PrefixPattern(..)); such nodes are not recorded in the
+                # pattern function's builder (GraphPattern._nodes) but take part in the match
+                from onnxscript.rewriter import _pattern_ir as I
+                base = P.torch_module_op if nd["dom_prefix"] == "pkg.torch" else P.OpsetPatternBuilder(I.PrefixPattern(nd["dom_prefix"]))
+            builder = base.submodule(nd["op"]) if nd.get("prefix") else getattr(base, nd["op"])
             r = builder(*[vp(i) for i in nd["ins"]], **kw)
             outs_of[j] = list(r) if isinstance(r, (list, tuple)) else [r]
+            fn.created.append(outs_of[j][0].producer())
         res = [vp(o) for o in desc["outs"]]
         return res[0] if len(res) == 1 else res
 
@@ -122,11 +133,69 @@ def build_pattern(desc):
 
 # ----------------------------------------------------------------------------- real GraphPattern -> abstract
 
-def abstract_of_real(gp):
+def _all_pattern_nodes(gp, I, hint=None):
+    """The node patterns of the pattern: GraphPattern._nodes (recorded by the pattern function's builder, creation order)
+    plus the nodes reachable from the outputs that another opset builder made (torch_module_op, ...), merged into one
+    order in which every node comes after the producers it refers to (creation order when everything is recorded)."""
+    recorded = list(gp)
+    rank = {id(n): j for j, n in enumerate(recorded)}
+    found = list(recorded)
+
+    def deps_of_value(v, acc):
+        if v is None:
+            return
+        if type(v) is I.NodeOutputPattern:
+            acc.append(v.producer())
+        elif type(v) is I.BacktrackingOr:
+            for a in v._values:
+                deps_of_value(a, acc)
+        elif type(v) is I.OpIdDispatchOr:
+            for _, (_, a) in v._op_to_pattern.items():
+                deps_of_value(a, acc)
+
+    def deps(n):
+        acc = []
+        for v in n.inputs:
+            deps_of_value(v, acc)
+        return acc
+
+    todo = []
+    for v in gp.outputs:
+        deps_of_value(v, todo)
+    todo += recorded
+    seen = {id(n) for n in found}
+    while todo:
+        n = todo.pop()
+        if id(n) not in seen:
+            seen.add(id(n))
+            found.append(n)
+        for d in deps(n):
+            if id(d) not in seen:
+                todo.append(d)
+    if len(found) == len(recorded):
+        return recorded
+    if hint is not None and {id(n) for n in hint} >= {id(n) for n in found}:
+        # creation order as the harness saw it (only the ORDER is taken from the hint; the nodes are those found above)
+        hrank = {id(n): k for k, n in enumerate(hint)}
+        prio = {id(n): (hrank[id(n)], 0) for n in found}
+    else:
+        prio = {id(n): (rank.get(id(n), len(recorded)), k) for k, n in enumerate(found)}
+    placed, order = set(), []
+    while len(order) < len(found):
+        ready = [n for n in found if id(n) not in placed and all(id(d) in placed for d in deps(n))]
+        if not ready:
+            raise TranslationError("cyclic pattern")
+        n = min(ready, key=lambda n: prio[id(n)])
+        placed.add(id(n))
+        order.append(n)
+    return order
+
+
+def abstract_of_real(gp, created=None):
     """Translate a real _pattern_ir.GraphPattern into the abstract form of coq/Match/Pattern.v (fail-closed)."""
     from onnxscript.rewriter import _pattern_ir as I
 
-    nodes = list(gp)
+    nodes = _all_pattern_nodes(gp, I, created)
     index = {id(n): j for j, n in enumerate(nodes)}
     keys = {}
 
@@ -267,7 +336,8 @@ def abstract_of_desc(desc):
         outs = [None] * outs if isinstance(outs, int) else list(outs)
         nodes.append({
             "op": ("prefix" if nd.get("prefix") else "exact", nd["op"]),
-            "dom": ("exact", nd.get("dom") or ""),
+            "dom": ("exact", nd["dom"]) if nd.get("dom") is not None else
+                   (("prefix", nd["dom_prefix"]) if nd.get("dom_prefix") is not None else ("exact", "")),
             "attrs": [(name, ap(a)) for name, a in nd.get("attrs", [])],
             "other_attrs": True if nd.get("other_attrs") is None else bool(nd["other_attrs"]),
             "other_ins": False if nd.get("other_ins") is None else bool(nd["other_ins"]),
@@ -304,6 +374,8 @@ def build_host(h):
     def const(v, c):
         if c == "other":
             arr = np.array([[1.0, 2.0], [3.0, 4.0]], dtype=np.float32)
+        elif isinstance(c, dict):
+            arr = np.array(c["data"], dtype=np.float32).reshape([int(d) for d in c["shape"]])
         else:
             arr = np.array(c, dtype=np.float32)
         val = ir.Value(name=f"c{v}", const_value=ir.tensor(arr, name=f"c{v}"),
@@ -437,6 +509,13 @@ def c_gpat(a):
 def c_cval(c):
     if c == "other":
         return "COther"
+    if isinstance(c, dict):
+        n = 1
+        for d in c["shape"]:
+            n *= int(d)
+        if n != len(c["data"]):
+            raise TranslationError(f"tensor constant {c!r}: shape and data disagree")
+        return f"(CTensor {clist([int(d) for d in c['shape']], cnat)} {clist([float(np.float32(x)) for x in c['data']], cq)})"
     if isinstance(c, (list, tuple)):
         return f"(CVec {clist([float(np.float32(x)) for x in c], cq)})"
     return f"(CScalar {cq(float(np.float32(c)))})"
